@@ -75,7 +75,12 @@ HashOne(e, i) ==
   LET s == e.ss[i]
       o == e.res[i]
   IN IF ~IsValue(o) THEN Mismatch(l, "hash-outcome", <<e.case, i>>, "value", o.outcome)
-     ELSE /\ Expect(l, "path-hash", <<e.case, i>>, PathHash(s), o.v.partial)
+     ELSE \* letters outside ASCII: their lower-case forms are given with the event (Unicode tables are not restated here);
+          \* for a string of ASCII bytes the given form must be the specification's own
+          /\ IF "lowered" \in DOMAIN e
+             THEN IF (\A k \in 1..Len(s) : s[k] < 128) /\ e.lowered[i] # Lower(s) THEN BadCase(l, "lowered form of an ASCII string")
+                  ELSE Expect(l, "path-hash", <<e.case, i>>, Jamcrc(e.lowered[i]), o.v.partial)
+             ELSE Expect(l, "path-hash", <<e.case, i>>, PathHash(s), o.v.partial)
           /\ Expect(l, "shader-key-hash", <<e.case, i>>, CrcZeroInit(s), o.v.shcrc)
           \* the key an index file of the first kind computes for the path (asked of a real, empty index file)
           /\ IF HasSlash(s) /\ "split" \in DOMAIN o.v
